@@ -534,7 +534,12 @@ func (r *screenRun) run(ops []sop, w, h int, truecolor bool, altscreen bool) err
 		switch o.Op {
 		case "SetContent":
 			mine := append([]rune(nil), o.Comb...)
-			s.SetContent(o.X, o.Y, o.R, mine, o.St)
+			switch (o.X*7 + o.Y*3 + int(o.R) + len(o.Comb)) % 6 { // a fifth of the stores go through the older SetCell
+			case 0:
+				s.SetCell(o.X, o.Y, o.St, append([]rune{o.R}, mine...)...)
+			default:
+				s.SetContent(o.X, o.Y, o.R, mine, o.St)
+			}
 			for i := range mine {
 				mine[i] = 'X'
 			}
